@@ -81,7 +81,21 @@ def run_build_cases(report, cases, features=None, key_prefix="build"):
         ml.append("%s mbuild %s %s" % (cid, fb, lib.hexs("(" + " ".join(stm) + ")")))
     model = lib.run_cases(driver, ml)
     valid = lib.run_cases(driver, vl)
-    stats = {"accepted": 0, "rejected": 0, "syntax": 0, "schedules_validated": 0}
+    # end to end at text level, on a sample (the extracted model lexer is quadratic in the text length): the
+    # model's OWN lexer and parser on the program text give the statement list the implementation's parser gives
+    sample = [cid for cid, c in cases.items() if len(c["hcl"]) < 1500][:40]
+    pl = ["%s parse %s 0" % (cid, lib.hexs(cases[cid]["hcl"])) for cid in sample]
+    pi, pm = lib.run_cases(harness, pl), lib.run_cases(driver, pl)
+
+    def _stmts(blk):
+        return [norm(translate.sexp_parse(y[5:])) if y.startswith("stmt ") else ("err" if y.startswith(("err", "parseerr")) else y) for y in blk]
+    for cid in sample:
+        a_, b_ = _stmts(pi.get(cid, ["MISSING"])), _stmts(pm.get(cid, ["MISSING"]))
+        if a_ != b_:
+            report.violation("%s-parse-differs-from-model" % key_prefix,
+                             "the grammar and the model parser read the program text differently: %s" % lib.first_diff([str(x) for x in a_], [str(x) for x in b_])[:200],
+                             {"case": cases[cid], "impl": [str(x)[:200] for x in a_[:6]], "model": [str(x)[:200] for x in b_[:6]]})
+    stats = {"accepted": 0, "rejected": 0, "syntax": 0, "schedules_validated": 0, "texts_parsed_by_model": len(sample)}
     for cid, c in cases.items():
         v = verdicts.get(cid)
         if v is None:
